@@ -492,3 +492,48 @@ NOT_APPLICABLE.pop("C20", None)
 
 for _p in ("C03", "C04", "C15"):
     PROPS[_p]["sequential_tiers"] = ("thorough",)
+
+# One line per harness: what the solver query quantifies over (goes into the
+# evidence samples).
+def _step_doc(action):
+    return ("delta_for_tx on one symbolic %s row from an arbitrary valid state; shape suffix aX_mY = acting affiliate X "
+            "(0 default, 1 b, 2 registered), mask Y of affiliates that transacted before (bit0 default, bit1 b, bit2 registered)" % action)
+
+HARNESS_DOC = {}
+for _n in C01_BUY: HARNESS_DOC[_n] = _step_doc("Buy")
+for _n in C01_SELL: HARNESS_DOC[_n] = _step_doc("Sell (window scan stubbed to 'not superficial')")
+for _n in C01_ROC: HARNESS_DOC[_n] = _step_doc("RoC")
+for _n in C01_SFLA: HARNESS_DOC[_n] = _step_doc("SfLA")
+for _n in C01_SPLIT: HARNESS_DOC[_n] = _step_doc("Split (balances in tenths of a share)")
+HARNESS_DOC.update({
+    "c01_csvtx_defaults": "Tx::try_from on a sparse Buy/Sell CsvTx with symbolic presence of commission / currency / rate",
+    "c02_w_buy_sale_buy": "rows [Buy(default) at -o1, loss sale(default) day 100, Buy(default) at +o2], o1,o2 in 0..35, symbolic trade dates, shares 1..15",
+    "c02_w_otherbuy_othersell_sale": "rows [Buy(b) at -o0, Sell(b) at -o1 (possibly everything), loss sale(default)], symbolic offsets and counts",
+    "c02_w_otherbuy_sale_sell": "rows [Buy(b) at -o1, loss sale(default), later Sell(default) at +o2]: look-ahead, portions, over-applied flag",
+    "c02_w_regbuy_sale_otherbuy_othersell": "rows [Buy(registered) at -o0, loss sale(default), Buy(b) at +o1, Sell(b) at +o2]: registered buyer, portions of two buyers",
+    "c02_lemma_buy_sale": "rows [Buy(default) day 95, loss sale(default) day 100] with symbolic counts: full result of the scan",
+    "c03_lemma_buy_buy_sale_sell": "rows [Buy(default) day 91, Buy(b) day 95, loss sale(default) day 100, Sell(b) day 103]: ratio and both portions",
+    "c04_lookahead_split_sell_exact_ratio": "rows [loss sale, Split post-for-pre with post,pre in {1,2,4}, later Sell z]: rejected iff z*pre > held*post",
+    "c04_lookahead_split_sell_one_for_three": "same with the 1-for-3 split of known finding F1 (expected to fail at the listed site)",
+    "c05_effective_cent_rounding_never_panics": "c_maybe_round_to_effective_cent on +/- m*10^-s, m 1..60000, s 0..12",
+    "c06_year_sums_3": "calc_security_cumulative_capital_gains on 3 deltas, symbolic optional gains, settlement days around New Year",
+    "c06_round_to_cent_is_half_away_from_zero": "round_to_cent on +/- m/10^(2+k), m 0..60000, k 1..3",
+    "c07_tx_ord_is_date_then_index": "Tx/CsvTx cmp on two rows with symbolic settlement day and read index, trade dates reversed",
+    "c07_sort3_is_stable_by_date_then_index": "Vec<Tx>::sort on 3 rows, symbolic days, every assignment of read indices",
+    "c10_summary_buy_not_in_later_loss_window": "get_summary_range_delta_indicies + make_simple_summary_txs on Buy / Sell(gain) / Sell(loss of k of 8 shares), symbolic days and summary date, another affiliate holding 0..3",
+    "c10_summary_buy_reproduces_state": "make_simple_summary_txs on balance 1..15, ACB 0..10.00",
+    "c11_roundtrip_buy_sell": "Tx -> CsvTx -> Tx for Buy/Sell with symbolic decimals, currencies, separate commission currency, SFL marker",
+    "c11_roundtrip_roc_sfla_split": "Tx -> CsvTx -> Tx for RoC / SfLA / Split (symbolic ratio, integer-only flag, default or global affiliate)",
+    "c15_w_buy_split_sale": "rows [Buy(default), m-for-1 Split(default), loss sale(default)] at symbolic offsets before the sale",
+    "c15_w_sale_split_buy": "rows [loss sale (possibly of everything), 2-for-1 or 1-for-1 Split, Buy] at symbolic offsets after the sale",
+    "c15_w_otherbuy_othersplit_sale": "rows [Buy(b), m-for-1 Split(b), loss sale(default)]: the split factor belongs to b",
+    "c16_opening_status_equals_opening_buy": "statuses seeded with (n, cost) vs empty + Buy n for the same total cost, read back through a symbolic affiliate",
+    "c17_carry_forward_closing_value": "calc_total_costs on A settling twice on day 1 and B once on day 2, five symbolic cost bases",
+    "c17_other_affiliates_ignored": "calc_total_costs with rows of affiliate b and the registered affiliate next to a default row",
+    "c18_fxt_pair": "FxTracker::add_fxt_row twice with symbolic currency, sign, amount and day of both legs",
+    "c18_brokertx_order_total": "BrokerTx cmp on three rows with symbolic day, timestamp, tiebreak, row",
+    "c18_implicit_fx_one_trade": "FxTracker::add_implicit_fxt on one USD buy or sell with symbolic shares, price, commission",
+    "c20_page_chunks_small": "safe_page_chunks_with_remainder_pn for 0..3 pages and one hint group of two page numbers 0..4",
+})
+for _p in ["aab", "aba", "baa", "aaa", "abb", "bab", "bba", "bbb"]:
+    HARNESS_DOC["c08_split_by_security_" + _p] = ("split_txs_by_security on 3 rows assigned to securities %s, symbolic sorted dates and increasing read indices" % _p.upper())
